@@ -230,7 +230,7 @@ def strip_counts(o):
 
 
 def run_traces(tag, traces):
-    impl = harness.run_traces("srv", [{k: v for k, v in t.items() if k not in ("hops", "memberships", "group_counts")} for t in traces], shards=min(8, max(1, len(traces))))
+    impl = harness.run_traces("srv", [{k: v for k, v in t.items() if k not in ("hops", "memberships", "group_counts", "mops")} for t in traces], shards=min(8, max(1, len(traces))))
     terms = ["hrun_obs %s" % show([h for h in t["hops"] if h is not None]) for t in traces]
     vals = coqrun.eval_terms(tag, IMPORTS, terms, shard_size=20)
     return impl, vals
@@ -244,13 +244,31 @@ def check(out, tier, seed, prop):
     traces = corpus() + [gen_trace(rng, "%s-g%d" % (prop, i), profile) for i in range(n)]
     if prop == "C06":
         traces += [members_trace(rng, "C06-m%d" % i) for i in range(max(6, n // 5))]
+    # the membership oracle is Model/Members.v (coherence proved in Proofs/MembersProofs.v): the expected number of groups of a
+    # client (get_me) and of members of a group (get_group) are evaluated in Coq; the generator's own bookkeeping is a cross-check
+    mtr = [t for t in traces if t.get("mops")]
+    model_members_checked = 0
+    if mtr:
+        mvals = coqrun.eval_terms(prop + "mem", "Base.Tactics Base.ListX Model.Members", ["mtrace minit %s" % show(t["mops"]) for t in mtr], shard_size=4)
+        for t, mv in zip(mtr, mvals):
+            qidx = [i for i, o in enumerate(t["ops"]) if o["op"] in ("get_me", "get_group")]
+            answers = [(x[1] if isinstance(x, tuple) and x[0] == "Some" else None) for x in mv]
+            if len(answers) != len(qidx):
+                raise RuntimeError("membership model: %d answers for %d queries" % (len(answers), len(qidx)))
+            want = dict(zip(qidx, answers))
+            gen_want = dict(t["memberships"] + t["group_counts"])
+            if want != gen_want:
+                raise RuntimeError("membership model and generator bookkeeping disagree in %s: %s vs %s" % (t["id"], want, gen_want))
+            t["memberships"] = [(i, want[i]) for i in qidx if t["ops"][i]["op"] == "get_me"]
+            t["group_counts"] = [(i, want[i]) for i in qidx if t["ops"][i]["op"] == "get_group"]
+            model_members_checked += len(qidx)
     impl, vals = run_traces(prop, traces)
     reported = 0
-    stats = {"responses": 0, "listings": 0, "restarts": 0, "disagreements": 0, "monitor": 0, "crashes": 0}
+    stats = {"responses": 0, "listings": 0, "restarts": 0, "disagreements": 0, "monitor": 0, "crashes": 0, "membership_answers_from_model": model_members_checked}
     hist = {}
     for t, v in zip(traces, vals):
         ob = impl[t["id"]]
-        slim = {k: x for k, x in t.items() if k not in ("hops", "memberships", "group_counts")}
+        slim = {k: x for k, x in t.items() if k not in ("hops", "memberships", "group_counts", "mops")}
         if "crash" in ob or "init_err" in ob:
             stats["crashes"] += 1
             if reported < 3:
@@ -358,9 +376,32 @@ def check(out, tier, seed, prop):
 def members_trace(rng, tid):
     """clients that are members of several consumer groups while streams / topics / groups are deleted (C06: deleting an
     entity removes the client memberships nested in it, never disturbs a sibling, never crashes)"""
-    ops, hops = [], []
+    ops, hops, mops = [], [], []
+    CL = {"c1": 1, "c2": 2, "c3": 3}
     def add(op, hop):
         ops.append(op); hops.append(hop)
+        k = op["op"]
+        gk = lambda: (op["stream"], op["topic"], op["group"])
+        if k == "create_group":
+            mops.append(C("inl", C("MCreateGroup", (op["stream"], op["topic"], op["id"]))))
+        elif k == "login":
+            mops.append(C("inl", C("MConnect", CL[op["c"]])))
+        elif k == "join_group":
+            mops.append(C("inl", C("MJoin", CL[op["c"]], gk())))
+        elif k == "leave_group":
+            mops.append(C("inl", C("MLeave", CL[op["c"]], gk())))
+        elif k == "delete_group":
+            mops.append(C("inl", C("MDeleteGroup", gk())))
+        elif k == "delete_topic":
+            mops.append(C("inl", C("MDeleteTopic", op["stream"], op["topic"])))
+        elif k == "delete_stream":
+            mops.append(C("inl", C("MDeleteStream", op["stream"])))
+        elif k == "delete_user":
+            mops.append(C("inl", C("MDropClient", CL["c3"])))       # c3 is the connection of that user
+        elif k == "get_me":
+            mops.append(C("inr", C("QClient", CL[op["c"]])))
+        elif k == "get_group":
+            mops.append(C("inr", C("QGroup", gk())))
     groups = []
     for sid, sname in ((1, "a"), (2, "b")):
         add({"op": "create_stream", "name": sname, "id": sid}, C("Cmd", C("CreateStream", C("Some", sid), nm(sname))))
@@ -423,7 +464,8 @@ def members_trace(rng, tid):
     add({"op": "catalog"}, C("Look"))
     add({"op": "restart"}, C("Restart"))
     add({"op": "catalog"}, C("Look"))
-    return {"id": tid, "cfg": {"req": 1000, "seg_size": 1000000, "cache": False}, "ops": ops, "hops": hops, "memberships": expect, "group_counts": group_counts}
+    return {"id": tid, "cfg": {"req": 1000, "seg_size": 1000000, "cache": False}, "ops": ops, "hops": hops, "memberships": expect, "group_counts": group_counts,
+            "mops": mops}
 
 
 def corpus():
